@@ -585,6 +585,7 @@ fn string_cases(thorough: bool) -> Vec<(String, Vec<StrSpec>)> {
     }
     let mut pairs: Vec<(String, String)> = vcore::collide::pairs().iter().map(|(_, a, b)| (a.clone(), b.clone())).collect();
     pairs.extend(vcore::sjis::suffix_pairs());
+    pairs.extend(vcore::sjis::case_pairs());
     for (i, (a, b)) in pairs.iter().enumerate() {
         v.push((format!("string pair #{}", i), vec![[Some(a.clone()), Some(b.clone()), None, None, Some(a.clone())], [Some(b.clone()), None, Some(a.clone()), Some(b.clone()), None]]));
     }
